@@ -72,6 +72,7 @@ type Contract struct {
 	Fresh       bool // may allocate
 	Invs        map[int][]*Clause
 	Decreases   map[int]*Clause
+	Variant     *Clause // function-level "decreases e": termination measure for (mutually) recursive calls
 	Sites       []*Clause
 	ExitsIf     []*Clause
 	PanicsIf    []*Clause
@@ -118,6 +119,7 @@ type World struct {
 	Funcs     map[*types.Func]*FuncInfo
 	Contracts []*Contract
 	ByFunc    map[*types.Func]*Contract
+	recEdges  map[*Contract][]*Contract
 	ByLit     map[*ast.FuncLit]*Contract
 	Defines   map[string]*Define // by pkgpath + "." + name, and by bare name
 	Lemmas    []*Lemma
@@ -225,7 +227,7 @@ func displayName(f *types.Func) string {
 	return pkg + f.Name()
 }
 
-var kwRe = regexp.MustCompile(`^(requires|ensures|returns|assigns|loop|site|pure|trusted|noinline|safety|exits_if|panics_if|props|is|let|errdrop)\b`)
+var kwRe = regexp.MustCompile(`^(requires|ensures|returns|assigns|loop|site|pure|trusted|noinline|safety|exits_if|decreases|panics_if|props|is|let|errdrop)\b`)
 
 func (w *World) loadContracts(p *packages.Package) error {
 	dir := ""
@@ -357,6 +359,12 @@ func (w *World) parseBlock(p *packages.Package, path string, b *rawBlock) error 
 				return err
 			}
 			c.Returns = append(c.Returns, cl)
+		case "decreases":
+			if err := parse(rest); err != nil {
+				return err
+			}
+			cl.Kind = "decreases"
+			c.Variant = cl
 		case "exits_if":
 			if err := parse(rest); err != nil {
 				return err
